@@ -21,13 +21,46 @@ theorem C16_sendPacket_spec (s : Proto) (p : Packet) :
     (p.addr = s.addr → s.addr ≠ BROADCAST →
         (s.sendPacket p).2 = .ok () ∧
         callsOf (s.sendPacket p).1.log = callsOf s.log ++ (s.handlers.map fun x => (x.2.token, p)) ∧
-        txOf (s.sendPacket p).1.log = txOf s.log ++ (s.handlers.map Prod.snd).flatMap (·.sends)) ∧
+        txOf (s.sendPacket p).1.log = txOf s.log ++ (s.handlers.map Prod.snd).flatMap (fun h => wireSends s.addr h.sends)) ∧
     (p.addr = s.addr → s.addr = BROADCAST →
         callsOf (s.sendPacket p).1.log = callsOf s.log ++ (s.handlers.map fun x => (x.2.token, p)) ∧
-        txOf (s.sendPacket p).1.log = txOf s.log ++ (s.handlers.map Prod.snd).flatMap (·.sends) ++ [p]) ∧
+        txOf (s.sendPacket p).1.log = txOf s.log ++ (s.handlers.map Prod.snd).flatMap (fun h => wireSends s.addr h.sends) ++ [p]) ∧
     (p.addr ≠ s.addr →
         callsOf (s.sendPacket p).1.log = callsOf s.log ∧ txOf (s.sendPacket p).1.log = txOf s.log ++ [p]) :=
   Ross.sendPacket_spec s p
+
+/-- C16 for a send issued from inside a handler's callback (through the `&mut Protocol` the callback is handed): the
+same routing. A packet for the device itself is delivered — re-entrantly, while the outer delivery is still in progress —
+exactly once to every registered handler in id order and stays off the link, unless the device's own address is the
+broadcast address, in which case it is also transmitted; any other packet is transmitted once, unmodified, and no handler
+is invoked. The outer delivery (`callsOf`) and the registry are not disturbed -/
+theorem C16_nested_send_spec (s : Proto) (q : Packet) :
+    Proto.SameCfg s (s.nestedSend q) ∧ callsOf (s.nestedSend q).log = callsOf s.log ∧
+    (q.addr = s.addr → s.addr ≠ BROADCAST →
+        ncallsOf (s.nestedSend q).log = ncallsOf s.log ++ (s.handlers.map fun x => (x.2.token, q)) ∧
+        txOf (s.nestedSend q).log = txOf s.log) ∧
+    (q.addr = s.addr → s.addr = BROADCAST →
+        ncallsOf (s.nestedSend q).log = ncallsOf s.log ++ (s.handlers.map fun x => (x.2.token, q)) ∧
+        txOf (s.nestedSend q).log = txOf s.log ++ [q]) ∧
+    (q.addr ≠ s.addr →
+        ncallsOf (s.nestedSend q).log = ncallsOf s.log ∧ txOf (s.nestedSend q).log = txOf s.log ++ [q]) :=
+  Ross.nestedSend_spec s q
+
+/-- C16, whole send: what the callbacks of the handlers a packet is delivered to send in turn is routed by the same rule
+— looped back to every handler (`loopCalls`) or put on the link (`wireSends`) -/
+theorem C16_send_own_nested (s : Proto) (p : Packet) (h : p.addr = s.addr) :
+    ncallsOf (s.sendPacket p).1.log = ncallsOf s.log ++
+      (s.handlers.map Prod.snd).flatMap (fun h => loopCalls s.addr s.handlers h.sends) :=
+  Ross.sendPacket_ncalls s p h
+
+/-! non-vacuity (kernel-evaluated): device 5 with two handlers; handler 0's callback sends one packet to the device itself
+and one to device 6. Sending a packet to device 5 invokes handler 0, whose loop-back reaches both handlers re-entrantly
+and whose other packet goes out; then handler 1 is invoked; nothing else is transmitted -/
+example :
+    ((((Proto.init 5 [] []).add ⟨0, false, [⟨false, 5, [0xaa]⟩, ⟨false, 6, [0xbb]⟩]⟩).1.add ⟨1, true, []⟩).1.sendPacket ⟨false, 5, [2]⟩).1.log =
+    [.call 0 ⟨false, 5, [2]⟩, .ncall 0 ⟨false, 5, [0xaa]⟩, .ncall 1 ⟨false, 5, [0xaa]⟩, .tx ⟨false, 6, [0xbb]⟩ true,
+     .call 1 ⟨false, 5, [2]⟩] := by
+  decide
 
 /-! ### tie to the source text (constants regenerated from /repo by `bin/extract` on every run) -/
 /-- `BROADCAST_ADDRESS` in `src/protocol.rs` is the model's -/
